@@ -131,7 +131,15 @@ func (ci *ChainImpl) QueryOp(line string) (string, bool) {
 		q := url.Values{}
 		q.Set("batchSize", ws[1])
 		if ws[2] != "-" {
-			q.Set("lastEvaluatedKey", ws[2])
+			key := ws[2]
+			// "q:<percent-encoded>" = a key the line protocol cannot carry verbatim (blanks, tabs, line ends); the model
+			// sees the token as written — any key that is not a stored merkle root is unknown either way
+			if strings.HasPrefix(key, "q:") {
+				if u, err := url.QueryUnescape(key[2:]); err == nil {
+					key = u
+				}
+			}
+			q.Set("lastEvaluatedKey", key)
 		}
 		r := ci.http("GET", "/api/v1/chain/merkleroot?"+q.Encode(), nil, nil)
 		if r.Status != 200 {
